@@ -137,7 +137,7 @@ PROPS = {
     "C10": {"level": "model_checking", "stages": [CHAIN_MBT, MINTER_UPD, DIST_CUR, DIST_UPD, MINTER_NUM, DIST_HUGE, CHAIN_TRACE], "assumptions": CHAIN_ASSUME},
     "C11": {"level": "model_checking", "stages": [CHAIN_REPL], "assumptions": CHAIN_ASSUME + ["Tendermint and IAVL are trusted; replicas are application instances fed the same ABCI calls"]},
     "C12": {"level": "model_checking", "stages": [CHAIN_MBT, MINTER_SCHED, DIST_CUR, VEST_ACCTS, VEST_POOLS, SIG_MBT, CHAIN_TRACE], "assumptions": CHAIN_ASSUME},
-    "C13": {"level": "model_checking", "stages": [MINTER_UPD, DIST_UPD, VEST_ACCTS, CHAIN_MBT, CHAIN_TRACE], "assumptions": CHAIN_ASSUME},
+    "C13": {"level": "model_checking", "stages": [MINTER_UPD, DIST_UPD, VEST_ACCTS, CHAIN_MBT, CHAIN_TRACE, VEST_TRACE], "assumptions": CHAIN_ASSUME},
     "C16": {"level": "model_checking", "stages": [UPG_MBT],
             "assumptions": TRUST + ["the upgrade is executed as its parts (the three Migrator.Migrate2to3, v120.UpdateVestingAccountTraces, ModifyVestingPoolsState, ModifyVestingAccountsState) on a store filled with legacy-format records; x/upgrade plan handling and the ICA module initialisation are not driven"]},
     "C20": {"level": "model_checking", "stages": [HOST_MBT, VEST_ACCTS, SIG_MBT, DIST_UPD, MINTER_UPD],
